@@ -188,3 +188,45 @@ func TestPhasedBursts(t *testing.T) {
 		}
 	})
 }
+
+// Part "never-block": "Offer/Poll never block" - whatever the loader is doing. A queue with an unbuffered
+// channel (and a buffered one for comparison), a long loader interval (1.5 s) and nobody waiting for values:
+// every Offer, Poll and Count returns at once, also while the loader is awake (it has just been woken by the
+// previous call). "At once" is taken as half a second: three orders of magnitude above what the calls need,
+// a third of what a call stuck behind one loader interval would take.
+func TestNeverBlock(t *testing.T) {
+	if vlib.Replaying() {
+		t.Skip()
+	}
+	schedMu.Lock()
+	defer schedMu.Unlock()
+	fpgo.SetVerifHook(nil)
+	for _, chanCap := range []int{0, 1} {
+		q := fpgo.NewBufferedChannelQueue[int](chanCap, 8, 100).SetLoadFromPoolDuration(1500 * time.Millisecond)
+		vlib.S().Eval("never-block")
+		vlib.S().NonTrivial("never-block", fmt.Sprintf("chanCap=%d", chanCap))
+		steps := []struct {
+			name string
+			fn   func()
+		}{
+			{"Offer(1)", func() { q.Offer(1) }}, {"Offer(2)", func() { q.Offer(2) }}, {"Poll()", func() { q.Poll() }}, {"Count()", func() { q.Count() }},
+			{"Offer(3)", func() { q.Offer(3) }}, {"Poll()", func() { q.Poll() }}, {"TakeWithTimeout(1ms)", func() { q.TakeWithTimeout(time.Millisecond) }}, {"Offer(4)", func() { q.Offer(4) }},
+		}
+		for i, st := range steps {
+			done := make(chan time.Duration, 1)
+			go func() { t0 := time.Now(); st.fn(); done <- time.Since(t0) }()
+			select {
+			case d := <-done:
+				if d > 500*time.Millisecond {
+					vlib.Fail(t, "C07/blocks", "BufferedChannelQueue(%d, 8, 100) with a 1.5 s loader interval, nobody waiting for values: step %d %s took %v", chanCap, i, st.name, d)
+					q.Close()
+					return
+				}
+			case <-time.After(vlib.StallBudget()):
+				vlib.Fail(t, "C07/blocks", "BufferedChannelQueue(%d, 8, 100) with a 1.5 s loader interval: step %d %s does not return", chanCap, i, st.name)
+				return
+			}
+		}
+		q.Close()
+	}
+}
